@@ -78,7 +78,30 @@ GosubProg(d) ==
                                    (IF k < d THEN <<[op |-> "GOSUB", n |-> 100 * (k + 1), col |-> TRUE]>> ELSE <<>>) \o
                                    <<Prt(C(-k)), [op |-> "RETURN", n |-> 0, col |-> TRUE]>>)],
       [kind |-> "gosub", expect |-> Bracket(1, d) \o <<50>>])
-GosubFamily == {GosubProg(d) : d \in 1..4}
+\* a GOSUB / ON n GOSUB whose target line does not exist fails (Undefined line number, trapped, RESUME NEXT) and enters no
+\* subroutine: a stray RETURN afterwards is RETURN without GOSUB (top level), and inside a real subroutine the RETURN
+\* goes back to the caller, so the body runs once (round-2 seeded change C19b pushed the return record before the jump)
+FailCall(t) == IF t = "GOSUB" THEN [op |-> "GOSUB", n |-> 999, col |-> TRUE]
+               ELSE [op |-> "ON", e |-> C(1), t |-> "GOSUB", ns |-> <<999, 100>>, col |-> TRUE]
+GosubFailProg(t, inner) ==
+    LET handler == Ln(500, <<Prt([k |-> "err"]), Prt([k |-> "erl"]), [op |-> "RESUME", w |-> "NEXT", n |-> 0, col |-> TRUE]>>)
+        onerr   == Ln(10, <<[op |-> "ONERR", n |-> 500, col |-> TRUE]>>)
+    IN IF inner
+       THEN P(<<onerr,
+                Ln(20, <<[op |-> "GOSUB", n |-> 100, col |-> TRUE], Prt(C(50))>>),
+                Ln(30, <<EndS>>),
+                Ln(100, <<Prt(C(1)), FailCall(t), Prt(C(2))>>),
+                Ln(110, <<[op |-> "RETURN", n |-> 0, col |-> TRUE]>>),
+                handler>>,
+              [kind |-> "gosubfail", expect |-> <<1, 8, 100, 2, 50>>])
+       ELSE P(<<onerr,
+                Ln(20, <<Prt(C(1)), FailCall(t), Prt(C(2))>>),
+                Ln(30, <<[op |-> "RETURN", n |-> 0, col |-> TRUE]>>),
+                Ln(40, <<Prt(C(9)), EndS>>),
+                Ln(100, <<Prt(C(77)), EndS>>),
+                handler>>,
+              [kind |-> "gosubfail", expect |-> <<1, 8, 20, 2, 3, 30, 9>>])
+GosubFamily == {GosubProg(d) : d \in 1..4} \cup {GosubFailProg(t, inner) : t \in {"GOSUB", "ON"}, inner \in BOOLEAN}
 (* ---------------- C22: READ / DATA / RESTORE ---------------- *)
 \* four items spread over three DATA statements (one in the middle of a multi-statement line); the program reads r
 \* values, RESTOREs (variant rv) after the j-th, and prints every value read
